@@ -150,6 +150,9 @@ func (p *recProc) Annotations() map[string]map[string]string { return nil }
 
 func handleFraming(q req) resp {
 	r := resp{Rx: q.Rx, Closed: -2}
+	if q.Rx == "fr_server" {
+		return handleRealServer(q)
+	}
 	tr, cleanup, err := mkTransport(q)
 	if err != nil {
 		r.Code, r.Msg = 103, err.Error()
@@ -238,6 +241,14 @@ func handleFraming(q req) resp {
 			return hx.Classify(err)
 		})
 		r.End = end
+		// whether accept closed the connection it stopped serving (observation only)
+		if _, p2 := hx.Guarded(2*time.Second, func() bool { return tr.IsOpen() }); p2 == "" {
+			if tr.IsOpen() {
+				r.Closed = 0
+			} else {
+				r.Closed = 1
+			}
+		}
 		proc.mu.Lock()
 		r.Frames = append([]string{}, proc.frames...)
 		proc.mu.Unlock()
@@ -245,5 +256,71 @@ func handleFraming(q req) resp {
 	default:
 		r.Code, r.Msg = 103, "unknown framing receiver"
 	}
+	return r
+}
+
+// fr_server: a real FSimpleServer on a TCP socket. The peer writes the chunks and
+// keeps its end open; closed = 1 when the server closed the connection within the
+// wait (it stopped serving it), 0 when it is still open (it waits for more).
+var (
+	realSrvOnce sync.Once
+	realSrvAddr string
+	realSrvErr  error
+	realSrvProc = &recProc{}
+)
+
+func handleRealServer(q req) resp {
+	r := resp{Rx: q.Rx, Closed: -2}
+	realSrvOnce.Do(func() {
+		st, err := thrift.NewTServerSocket("127.0.0.1:0")
+		if err != nil {
+			realSrvErr = err
+			return
+		}
+		if err := st.Listen(); err != nil {
+			realSrvErr = err
+			return
+		}
+		realSrvAddr = st.Addr().String()
+		srv := frugal.NewFSimpleServer(realSrvProc, st, protoFactory)
+		go srv.Serve()
+	})
+	if realSrvErr != nil {
+		r.Code, r.Msg = 103, realSrvErr.Error()
+		return r
+	}
+	conn, err := net.DialTimeout("tcp", realSrvAddr, 2*time.Second)
+	if err != nil {
+		r.Code, r.Msg = 103, err.Error()
+		return r
+	}
+	defer conn.Close()
+	realSrvProc.mu.Lock()
+	realSrvProc.frames = nil
+	realSrvProc.mu.Unlock()
+	for _, h := range q.Chunks {
+		b, _ := hex.DecodeString(h)
+		conn.SetWriteDeadline(time.Now().Add(2 * time.Second))
+		if _, err := conn.Write(b); err != nil {
+			break // the server may already have closed
+		}
+	}
+	wait := time.Duration(q.N) * time.Millisecond
+	if wait == 0 {
+		wait = 400 * time.Millisecond
+	}
+	conn.SetReadDeadline(time.Now().Add(wait))
+	_, err = io.Copy(io.Discard, conn)
+	if err == nil {
+		r.Closed = 1 // EOF: closed by the server
+	} else if ne, ok := err.(net.Error); ok && ne.Timeout() {
+		r.Closed = 0
+	} else {
+		r.Closed = 1 // reset
+		r.Msg = err.Error()
+	}
+	realSrvProc.mu.Lock()
+	r.Frames = append([]string{}, realSrvProc.frames...)
+	realSrvProc.mu.Unlock()
 	return r
 }
